@@ -74,12 +74,22 @@ class Machine:
 
     # run ------------------------------------------------------------------
     def run(self, maxsteps=100000):
-        pc = 0
+        self.pc = 0
         steps = 0
         while True:
             steps += 1
             if steps > maxsteps:
                 raise Fault("step limit")
+            r = self.step()
+            if r is not None:
+                return r
+
+    pc = 0
+
+    def step(self):
+        """execute one instruction; returns the exit tuple or None"""
+        pc = self.pc
+        while True:
             if not 0 <= pc < len(self.insns):
                 raise Fault(f"pc {pc} outside program")
             opc, dst, src, off, imm = self.insns[pc]
@@ -153,14 +163,16 @@ class Machine:
                     else:
                         raise Fault(f"alu {opc:#x}")
                     self.regs[dst] = r & mask
-                pc += 1
+                self.pc = pc + 1
+                return None
             elif cls == 0:
                 if opc != 0x18:
                     raise Fault(f"ld {opc:#x}")
                 lo = imm & M32
                 hi = self.insns[pc + 1][4] & M32
                 self.regs[dst] = MAPPTR + lo if src == 1 else lo | hi << 32
-                pc += 2
+                self.pc = pc + 2
+                return None
             elif cls == 1:
                 size = {0: 4, 8: 2, 0x10: 1, 0x18: 8}[opc & 0x18]
                 addr = (self.reg(src) + off) & M64
@@ -172,7 +184,8 @@ class Machine:
                 else:
                     self.check(addr, size)
                     self.regs[dst] = self.ld(addr, size)
-                pc += 1
+                self.pc = pc + 1
+                return None
             elif cls in (2, 3):
                 size = {0: 4, 8: 2, 0x10: 1, 0x18: 8}[opc & 0x18]
                 addr = (self.reg(dst) + off) & M64
@@ -181,7 +194,8 @@ class Machine:
                 if opc & 0xe0 == 0xc0:
                     val = self.ld(addr, size) + val
                 self.stb(addr, size, val & ((1 << (8 * size)) - 1))
-                pc += 1
+                self.pc = pc + 1
+                return None
             else:
                 code = opc >> 4
                 if code == 0x9:
@@ -190,11 +204,11 @@ class Machine:
                     r = self.call(imm)
                     if r is not None:
                         return r
-                    pc += 1
-                    continue
+                    self.pc = pc + 1
+                    return None
                 if code == 0x0:
-                    pc += 1 + off
-                    continue
+                    self.pc = pc + 1 + off
+                    return None
                 w = 64 if cls == 5 else 32
                 mask = (1 << w) - 1
                 a = self.reg(dst) & mask
@@ -203,7 +217,8 @@ class Machine:
                 t = {1: a == b, 2: a > b, 3: a >= b, 4: bool(a & b),
                      5: a != b, 6: sa > sb, 7: sa >= sb, 0xa: a < b,
                      0xb: a <= b, 0xc: sa < sb, 0xd: sa <= sb}[code]
-                pc += 1 + (off if t else 0)
+                self.pc = pc + 1 + (off if t else 0)
+                return None
 
     def call(self, no):
         r = self.regs
